@@ -2,6 +2,7 @@ package harness
 
 import (
 	"context"
+	"encoding/json"
 	"fmt"
 	"sync/atomic"
 	"time"
@@ -253,10 +254,22 @@ func BuildStack(c StackCfg) (*Stack, error) {
 	case "queue":
 		st.Default, err = mkDefault()
 		if err == nil {
-			st.Queue = limiter.NewQueueBlockingLimiterFromConfig(st.Default, limiter.QueueLimiterConfig{
+			qc := limiter.QueueLimiterConfig{
 				Ordering: qord(c.Ordering), MaxBacklogSize: c.Backlog, MaxBacklogTimeout: c.Timeout,
-				BacklogEvictDoneCtx: c.Evict, MetricRegistry: st.Reg,
-			})
+				BacklogEvictDoneCtx: c.Evict,
+			}
+			if c.Limit%2 == 0 {
+				// half of the configurations take the route of a configuration file: the struct is written to JSON and
+				// read back (its fields carry json / yaml tags for that purpose)
+				if b, e := json.Marshal(qc); e == nil {
+					var back limiter.QueueLimiterConfig
+					if e := json.Unmarshal(b, &back); e == nil {
+						qc = back
+					}
+				}
+			}
+			qc.MetricRegistry = st.Reg
+			st.Queue = limiter.NewQueueBlockingLimiterFromConfig(st.Default, qc)
 			st.Lim = st.Queue
 			st.Order = c.Ordering
 			if st.Order == "" {
